@@ -122,6 +122,14 @@ static int table_insert(uint64_t *t, uint64_t mask, uint64_t key, uint64_t *coun
 	}
 }
 
+/* sanitizer options are read before main(): compiled in.  Allocations above 1 GiB fail (NULL) instead of aborting,
+   which is how harnesses provoke an out-of-memory answer */
+const char *__asan_default_options(void);
+const char *__asan_default_options(void)
+{
+	return "detect_leaks=0:abort_on_error=0:exitcode=88:allocator_may_return_null=1:max_allocation_size_mb=1024:detect_stack_use_after_return=0";
+}
+
 /* ---------------------------------------------------------------- choices */
 int vp_cost_choose(int n, int costnz, const char *tag)
 {
